@@ -273,8 +273,8 @@ class Check:
 
         for k in self.known_hits.values():
             f = k["finding"]
-            print(f"KNOWN-FINDING: property={self.pid} {f['id']} {f['what']} (seen {k['count']}x this run, "
-                  f"e.g. {json.dumps(k['first']['case']['vals'])} {json.dumps(k['first']['case']['p'])})")
+            verdict_print(f"KNOWN-FINDING: property={self.pid} {f['id']} {f['what']} (seen {k['count']}x this run, "
+                          f"e.g. {json.dumps(k['first']['case']['vals'])} {json.dumps(k['first']['case']['p'])})")
 
         def write_replay(obj_):
             obj_ = dict(obj_, property=self.pid, seed=self.seed, tier=self.tier,
@@ -341,7 +341,7 @@ class Check:
         for f in self.failures[:5]:
             print(f"  property failure [{f['alg']}] {json.dumps(f['case'])[:300]} fmt={f['fmt']}: {f['kind']}: {f['expected']} observed={json.dumps(f['observed'], default=str)[:300]}", file=sys.stderr)
         for v in violations:
-            print(v)
+            verdict_print(v)
         print(f"[{self.pid}] tier={self.tier} seed={self.seed} corr_cases={self.corr_cases} impl_calls={self.evaluations} "
               f"certified={self.stats['certified']['evaluations']} theorems={aud['discharged']}/{aud['obligations']} "
               f"disagreements={len(self.disagreements)} failures={len(self.failures)} wall={ev['wall_s']}s", file=sys.stderr)
